@@ -254,6 +254,9 @@ def run_behaviour(prog, states, seed=0):
             if ev.get('kind') == 'op' and ev.get('op') in ('pause', 'resume', 'stop') and ev.get('args'):
                 ev['target_sid'] = ids['wf_rev'].get(ev['args'][0], '')
                 ev['arg'] = ev['args'][1] if len(ev['args']) > 1 else ''
+            if ev.get('kind') == 'op' and ev.get('op') == 'rerun' and ev.get('args'):
+                ev['target_sid'] = ids['tk_rev'].get(ev['args'][0], '')
+                ev['arg'] = 'skip' if (len(ev['args']) > 2 and ev['args'][2]) else ('reset' if ev['args'][1] else 'noreset')
             engrun.label_ev(ev, ids)
             ev.pop('args', None)
             ev.pop('result', None)
